@@ -246,7 +246,7 @@ def audit_many(ctx, repo, items, threads=4, via_revparse=True):
         for i, (v, w, q) in enumerate(items):
             if v != variant:
                 continue
-            if via_revparse and len(q["others"]) == 1 and i % 50:
+            if via_revparse and len(q["others"]) == 1 and i % (100 if ctx.thorough else 50):
                 rp.append(i)
             else:
                 mb.append(i)
@@ -321,10 +321,10 @@ def part_pick(w, n):
 
 def gen_runs(ctx):
     if ctx.thorough:
-        # all shapes up to 5 commits incl. octopus merges under six time patterns; the 6-commit shapes with two-parent
-        # merges under the two skewed patterns, two-tip queries
-        return [{"MinN": 1, "MaxN": 5, "MaxPar": 3, "MaxOthers": 2, "Pats": '{"inc", "eq", "dec", "rootnew", "tipold", "zig"}'},
-                {"MinN": 6, "MaxN": 6, "MaxPar": 2, "MaxOthers": 1, "Pats": '{"eq", "dec"}'}]
+        # all shapes up to 5 commits incl. octopus merges under four time patterns; the 6-commit shapes with two-parent
+        # merges under reversed times, two-tip queries
+        return [{"MinN": 1, "MaxN": 5, "MaxPar": 3, "MaxOthers": 2, "Pats": '{"inc", "eq", "dec", "zig"}'},
+                {"MinN": 6, "MaxN": 6, "MaxPar": 2, "MaxOthers": 1, "Pats": '{"dec"}'}]
     return [{"MinN": 1, "MaxN": 5, "MaxPar": 2, "MaxOthers": 2, "Pats": '{"inc", "eq", "dec"}'}]
 
 
@@ -332,7 +332,7 @@ def run(ctx):
     binary = ctx.build("vh-c46")
     worlds = []
     for consts in gen_runs(ctx):
-        worlds += ctx.tlc_gen("history", "DagMB_Gen", consts=consts, workers=6, timeout=3000)
+        worlds += [d for d in ctx.tlc_gen("history", "DagMB_Gen", consts=consts, workers=6, timeout=3000) if d["queries"]]
     ctx.cov["exhaustive"] = True
     # quick tier: every world, but of the 5-commit worlds only the queries that run the algorithm
     # (first not among others) - the shortcut is covered by the smaller worlds
@@ -381,11 +381,11 @@ def run(ctx):
         ctx.log("disagreements by class and mode: %s" % json.dumps(summary, sort_keys=True))
     ctx.cov["queries_with_several_bases"] = multi
     ctx.cov["queries_without_base"] = none
-    ctx.sample({"world": {"par": worlds[len(worlds) // 2]["par"], "time": worlds[len(worlds) // 2]["time"]},
-                "query": worlds[len(worlds) // 2]["queries"][-1]})
+    mid = [d for d in worlds[len(worlds) // 2:] if d["queries"]][0]
+    ctx.sample({"world": {"par": mid["par"], "time": mid["time"]}, "query": mid["queries"][-1]})
 
     # binding C: git on the generated queries: every two-tip query, and a stride of the queries with several others
-    budget = 600 if not ctx.thorough else 40000
+    budget = 600 if not ctx.thorough else 8000
     two, many = [], []
     for w, qs in wq:
         for q in qs:
@@ -447,7 +447,7 @@ def random_world(rng, n):
 
 
 def random_part(ctx, binary):
-    nw = 120 if not ctx.thorough else 4000
+    nw = 120 if not ctx.thorough else 2500
     worlds, wq = [], []
     for w in range(nw):
         n = ctx.rng.randint(6, 26)
